@@ -14,6 +14,16 @@ CHECKS = {
         "rounding band of 8 ulp at the support edge; r<=1e-12 guard "
         "honoured."),
   technique="property-based testing (Hypothesis) against an mpmath reference transcription + exhaustive enumeration of kernel x dim"),
+ 'C10': dict(
+  text=("Solver.solve() driven by a recording stand-in integrator over "
+        "generated (dt, tf, pfreq, output_at_times, n_damp, max_steps, "
+        "adaptive sequences); invariants of the property statement checked "
+        "over the recorded history with a model of the documented damping "
+        "factor and nominal step."),
+  note=("Stand-in integrator replaces the compiled one (as the repository's "
+        "own test_solver does); tolerance 4*eps*tf*count on times; recorded "
+        "dt not asserted once the next nominal step would pass tf."),
+  technique="property-based testing (Hypothesis) with history invariants and a reference model of the step schedule"),
 }
 
 NOT_APPLICABLE = [
